@@ -21,6 +21,10 @@ pub struct C18;
 #[derive(Clone, Copy, Debug, Serialize, Deserialize, PartialEq, Eq)]
 pub enum Op {
   Source,
+  /// rope() rendered
+  Rope,
+  /// buffer() copied
+  Buffer,
   Size,
   Map(bool),
   Stream(bool),
@@ -99,6 +103,7 @@ pub struct Case {
 #[derive(Clone, Debug, PartialEq)]
 pub enum Answer {
   Text(String),
+  Bytes(Vec<u8>),
   Size(usize),
   /// per-byte attribution through the returned map
   /// attribution of every position; whether there was a map at all (None where known finding K1 makes that depend on
@@ -119,6 +124,10 @@ fn leaf(cfg: GenCfg) -> BoxedStrategy<Spec> {
     2 => t.clone().prop_map(Spec::Raw),
     2 => t.clone().prop_map(|s| Spec::RawBuf(s.into_bytes())),
     1 => t.clone().prop_map(|s| Spec::RawBytes(s.into_bytes())),
+    // binary leaves whose lazily decoded text is not their bytes (invalid UTF-8): whichever call decodes first fills
+    // the shared cell for everybody
+    1 => crate::gen::bytes(GenCfg { invalid_utf8: true, max_tokens: 4, ..cfg }).prop_map(Spec::RawBuf),
+    1 => crate::gen::bytes(GenCfg { invalid_utf8: true, max_tokens: 4, ..cfg }).prop_map(Spec::RawBytes),
     3 => (t.clone(), 0u8..3u8).prop_map(|(text, k)| Spec::Orig { text, name: format!("f{k}.js") }),
     3 => t.clone().prop_map(|text| Spec::Custom { text }),
   ]
@@ -153,6 +162,8 @@ fn shared_tree() -> BoxedStrategy<Spec> {
 fn op() -> BoxedStrategy<Op> {
   prop_oneof![
     2 => Just(Op::Source),
+    1 => Just(Op::Rope),
+    1 => Just(Op::Buffer),
     1 => Just(Op::Size),
     3 => any::<bool>().prop_map(Op::Map),
     3 => any::<bool>().prop_map(Op::Stream),
@@ -359,6 +370,8 @@ fn identity(m: &Option<rspack_sources::SourceMap>) -> usize {
 fn run_op<'a>(tree: &'a BoxSource, other: &BoxSource, near: &BoxSource, spec: &Spec, text: &str, op: Op, keep: &mut Vec<Retained<'a>>) -> Answer {
   let r = guard(|| match op {
     Op::Source => Answer::Text(tree.source().to_string()),
+    Op::Rope => Answer::Text(tree.rope().to_string()),
+    Op::Buffer => Answer::Bytes(tree.buffer().to_vec()),
     Op::Size => Answer::Size(tree.size()),
     Op::Map(c) => {
       let m = tree.map(&opts(c, false));
@@ -400,6 +413,15 @@ fn coarse(a: &Answer) -> Answer {
     Answer::Stream(t, i, _, _) => Answer::Stream(t.clone(), *i, vec![], BTreeMap::new()),
     other => other.clone(),
   }
+}
+
+/// Trees that attribute differently before and after a cache warmed up, single-threaded too: a CachedSource beneath a
+/// ReplaceSource (rule 1), and a CachedSource over non-ASCII text with mapped text in it (known finding W2: the replay
+/// counts characters where the cold stream counted bytes).  Only text, bytes, end information, size, hash and equality are
+/// compared for them.
+fn coarse_only(tree: &Spec) -> bool {
+  tree.cached_under_replace()
+    || (tree.has_cached() && !model_text(tree).is_ascii() && tree.any(&|s| matches!(s, Spec::Orig { .. } | Spec::Custom { .. })))
 }
 
 /// the same operation on a fresh twin, single-threaded, no scheduler
@@ -582,7 +604,7 @@ fn judge(p: &Program, want: &[Vec<Answer>], out: &RunOut, schedule: &[u8]) -> Re
   }
   for (t, ops) in p.threads.iter().enumerate() {
     for (k, op) in ops.iter().enumerate() {
-      let cu = p.tree.cached_under_replace();
+      let cu = coarse_only(&p.tree);
       let got_c = out.answers[t].get(k).map(|a| if cu { coarse(a) } else { a.clone() });
       let got = got_c.as_ref();
       let w_c = if cu { coarse(&want[t][k]) } else { want[t][k].clone() };
@@ -685,7 +707,7 @@ impl Prop for C18 {
           let got = execute_parallel(p).map_err(|e| format!("really parallel run #{round}: {e}"))?;
           for (t, ops) in p.threads.iter().enumerate() {
             for (k, op) in ops.iter().enumerate() {
-              let cu = p.tree.cached_under_replace();
+              let cu = coarse_only(&p.tree);
               let g = got[t].get(k).map(|a| if cu { coarse(a) } else { a.clone() });
               let w = if cu { coarse(&want[t][k]) } else { want[t][k].clone() };
               if g != Some(w) || got[t].len() != ops.len() {
